@@ -335,6 +335,38 @@ def only_validated_stores(rep, src, rule):
     if n == 0 and f.cls == 'Deb822':
         raise AnalysisError('positive control failed: no Deb822Dict.__setitem__ call found at all')
     rep.ok(rule, 'deb822', 'only Deb822.__setitem__ performs the raw store', '%d raw store call(s), all inside Deb822.__setitem__' % n)
+    # ... and the raw store itself -- a value put into the private value table of Deb822Dict -- happens in Deb822Dict.__setitem__ only:
+    # any other method that writes the table (an "optimised" setdefault / update / pop-and-reinsert) is a way in that the validator
+    # of the subclass does not see.  (The table is found as the attribute Deb822Dict.__setitem__ stores its value parameter into.)
+    base_set = m.funcs.get('Deb822Dict.__setitem__')
+    if base_set is None:
+        raise AnalysisError('deb822:Deb822Dict.__setitem__ not found')
+    vparam = base_set.params()[2]
+    tables = {norm(t_.value) for st in ast.walk(base_set.node) if isinstance(st, ast.Assign) and norm(st.value) == vparam
+              for t_ in st.targets if isinstance(t_, ast.Subscript)}
+    if len(tables) != 1:
+        raise AnalysisError('%s: the value table is not one attribute (%s)' % (base_set.site, sorted(tables)))
+    table = next(iter(tables))
+    writers = []
+    for q, fn in sorted(m.funcs.items()):
+        if not q.startswith('Deb822Dict.') or '.' in q[len('Deb822Dict.'):]:
+            continue
+        for n_ in ast.walk(fn.node):
+            wr = (isinstance(n_, ast.Subscript) and isinstance(n_.ctx, ast.Store) and norm(n_.value) == table) or \
+                 (isinstance(n_, ast.Call) and isinstance(n_.func, ast.Attribute) and norm(n_.func.value) == table and n_.func.attr in ('update', 'setdefault', '__setitem__'))
+            if wr:
+                writers.append((fn, n_))
+    # the constructor fills the table only with what it was given as already parsed (_parsed) -- it stores nothing under a key
+    allowed = ('Deb822Dict.__setitem__',)
+    bad_w = [(fn, n_) for fn, n_ in writers if fn.qual not in allowed]
+    if not writers:
+        raise AnalysisError('positive control failed: no store into %s found' % table)
+    if bad_w:
+        fn, n_ = bad_w[0]
+        rep.fail(rule, fn.site, 'stores into the value table', '%s writes %s directly (line %d): a value set this way reaches no validator -- %s accepts "x\\nInjected: yes" and the dump '
+                 'has one field more' % (fn.qual, table, n_.lineno, fn.name), where='%s:%d' % (fn.module.relpath, n_.lineno))
+    else:
+        rep.ok(rule, 'deb822', 'stores into the value table', '%d store(s) into %s, all in Deb822Dict.__setitem__' % (len(writers), table))
 
 
 def check(src, rep, tier):
